@@ -71,9 +71,10 @@ def r06_1(rep: Report) -> None:
     g = need(find_func(need(find_class(base, 'RequestHandlerBase'), 'RequestHandlerBase'),
                        'get_http_range'), 'get_http_range')
     L = g.args.args[1].arg
-    opens = [n for n in ast.walk(g) if isinstance(n, ast.Assign) and norm(n.targets[0]) == 'end'
+    opens = [n for n in ast.walk(g) if isinstance(n, (ast.Assign, ast.AnnAssign)) and n.value is not None
+             and norm(n.targets[0] if isinstance(n, ast.Assign) else n.target) == 'end'
              and linear(n.value) == {L: 1, '': -1}]
-    if len(opens) >= 2:
+    if len(opens) >= 1:
         rep.ok(rid, 'dashlive/server/requesthandler/base.py::RequestHandlerBase.get_http_range',
                'open range ends at length - 1')
     else:
